@@ -41,3 +41,21 @@ Example C09_runs :
   map (fun op => map (assign_stmt ZS uf0 lf0 true op (fun i => (Z.of_nat i + 2)%Z) e) [0; 1; 2]) [ASet; AAdd; ASub; AMul]
   = map (fun op => map (eager_stmt ZS uf0 lf0 op (fun i => (Z.of_nat i + 2)%Z) e) [0; 1; 2]) [ASet; AAdd; ASub; AMul].
 Proof. vm_compute. reflexivity. Qed.
+
+(** * Tie to the source (translator): the functions that assign a lazy linear-algebra node
+    (expressions/linalg_ops/unary_{trans,ctrans,adj,cof,inv}_op.h and binary_matmul_op.h), as translated on every
+    run.  Unary nodes: the operand is evaluated once; plain assignment computes straight into the destination, a
+    compound assignment computes into a fresh local and applies the operator the function is named after - for all
+    5 x 5 functions.  Products: for all 20 functions the operands are passed in order, an operand is copied into a
+    tensor first exactly when the overload is selected for a non-tensor, and the update performed by the chosen
+    dispatcher equals the operator's update of the old value by the product, for every old value and product. *)
+From FastorV Require Import Gen.GeneratedAccess Proofs.GenAccessEq.
+Theorem C09_source_lazy_assignment :
+  (forallb (fun e : nat * nat * nat => let '(_, op, called) := e in op =? called) gen_lazy_unary_assign = true /\
+   map (fun e : nat * nat * nat => let '(node, op, _) := e in (node, op)) gen_lazy_unary_assign
+   = flat_map (fun node => map (fun op => (node, op)) (seq 0 5)) (seq 0 5)) /\
+  (Forall lazy_matmul_entry_ok gen_lazy_matmul_assign /\
+   map (fun e : nat * bool * bool * bool * bool * nat * Z * Z => let '(op, lt, rt, _, _, _, _, _) := e in (op, lt, rt)) gen_lazy_matmul_assign
+   = flat_map (fun op => map (fun g : bool * bool => (op, fst g, snd g)) [(true, true); (false, true); (true, false); (false, false)]) (seq 0 5)).
+Proof. exact (conj gen_lazy_unary_assign_ok gen_lazy_matmul_assign_ok). Qed.
+Print Assumptions C09_source_lazy_assignment.
